@@ -153,3 +153,15 @@ pub(crate) static RECORD_ANC: SchemaNode<'static> = SchemaNode::Record(Record {
 });
 
 pub(crate) static ARRAY_OF_LONG: SchemaNode<'static> = SchemaNode::Array(NodeRef::from_static(&N_LONG));
+
+// ---- record R3 { a: long, b: long, c: long }
+static FIELDS_LLL: [RecordField<'static>; 3] = [
+	RecordField { name: const_string(b"a"), schema: NodeRef::from_static(&N_LONG) },
+	RecordField { name: const_string(b"b"), schema: NodeRef::from_static(&N_LONG) },
+	RecordField { name: const_string(b"c"), schema: NodeRef::from_static(&N_LONG) },
+];
+pub(crate) static RECORD_LLL: SchemaNode<'static> = SchemaNode::Record(Record {
+	fields: const_vec(&FIELDS_LLL),
+	name: anon_name(),
+	per_name_lookup: empty_map(),
+});
